@@ -735,6 +735,159 @@ def mon_c15(res):
     return fails
 
 
+def docs_of(attrs):
+    return [sx.qtext(x) if isinstance(x, sx.Q) else str(x) for x in corr.split_attrs(attrs)["doc"]]
+
+
+def mon_c17(res):
+    fails = []
+    exp = res.case.get("exp")
+    if res.hv[0] != "ok" or not exp:
+        return fails
+
+    def chk(cond, clause, detail):
+        if not cond:
+            fails.append(dict(clause=clause, detail=detail))
+
+    for rel, m in (exp.get("modules") or {}).items():
+        f = res.hfiles.get(rel + ".rs")
+        if f is not None and f[0] == "file":
+            chk(docs_of(f[1]) == m["doc"], "C17.module_doc", "%s: %s vs declared %s" % (rel, docs_of(f[1]), m["doc"]))
+    for tpath, t in exp["types"].items():
+        f, tname = file_of_type(res, tpath)
+        st = struct_of(f, tname)
+        if st is None:
+            continue
+        at = corr.split_attrs(st[1])
+        chk((st[2] == "pub") == t["pub"], "C17.type_vis", tpath)
+        want = set()
+        if t["copyable"]:
+            want |= {"Copy", "Clone"}
+        if t["cloneable"]:
+            want |= {"Clone"}
+        if t["defaultable"]:
+            want |= {"Default"}
+        chk(set(at["derive"] or []) == want, "C17.derive", "%s: %s, declared %s" % (tpath, sorted(at["derive"] or []), sorted(want)))
+        if t["packed"]:
+            chk(at["repr"] == "C , packed", "C17.packed", "%s: repr(%s)" % (tpath, at["repr"]))
+        else:
+            chk((at["repr"] or "").startswith("C , align (paren"), "C17.repr", "%s: repr(%s)" % (tpath, at["repr"]))
+        chk(docs_of(st[1]) == t["doc"], "C17.type_doc", "%s: %s vs declared %s" % (tpath, docs_of(st[1]), t["doc"]))
+        meta = t.get("field_meta") or {}
+        for x in st[4:]:
+            if not (isinstance(x, list) and x[0] == "field"):
+                continue
+            n = str(x[3])
+            if n in meta:
+                chk((x[2] == "pub") == meta[n][0], "C17.field_vis", "%s.%s" % (tpath, n))
+                chk(docs_of(x[1]) == meta[n][1], "C17.field_doc", "%s.%s: %s vs %s" % (tpath, n, docs_of(x[1]), meta[n][1]))
+            else:
+                chk(x[2] == "priv" and not docs_of(x[1]), "C17.generated_field_private", "%s.%s" % (tpath, n))
+        ms = methods_of(f, tname)
+        for d in t["impls"] + [d for d in (t.get("slot_descs") or []) if d]:
+            m = ms.get(d["name"])
+            if m is None or d["name"].startswith("_"):
+                continue
+            chk((m[2] == "pub") == d["pub"], "C17.method_vis", "%s::%s" % (tpath, d["name"]))
+            chk(docs_of(m[1]) == d["doc"], "C17.method_doc", "%s::%s: %s vs %s" % (tpath, d["name"], docs_of(m[1]), d["doc"]))
+        for special in ("vftable", "get"):
+            if special in ms:
+                chk(not docs_of(ms[special][1]), "C17.stray_doc", "%s::%s" % (tpath, special))
+        if t.get("declared_vft"):
+            vst = struct_of(f, tname + "Vftable")
+            descs = t.get("slot_descs") or []
+            if vst is not None:
+                chk(not docs_of(vst[1]), "C17.stray_doc", "%sVftable" % tpath)
+                for k, x in enumerate([y for y in vst[4:] if isinstance(y, list) and y[0] == "field"]):
+                    d = descs[k] if k < len(descs) else None
+                    if d is None:
+                        chk(x[2] == "priv" and not docs_of(x[1]), "C17.placeholder_private", "%sVftable slot %d" % (tpath, k))
+                    else:
+                        chk((x[2] == "pub") == d["pub"], "C17.slot_vis", "%sVftable.%s" % (tpath, d["name"]))
+                        chk(docs_of(x[1]) == d["doc"], "C17.slot_doc", "%sVftable.%s: %s vs %s" % (tpath, d["name"], docs_of(x[1]), d["doc"]))
+    for epath, e in exp["enums"].items():
+        f, ename = file_of_type(res, epath)
+        it = struct_of(f, ename)
+        if it is None:
+            continue
+        at = corr.split_attrs(it[1])
+        chk((it[2] == "pub") == e["pub"], "C17.enum_vis", epath)
+        want = {"PartialEq", "Eq", "PartialOrd", "Ord", "Debug"}
+        if e["copyable"]:
+            want |= {"Copy", "Clone"}
+        if e["cloneable"]:
+            want |= {"Clone"}
+        if e["defaultable"]:
+            want |= {"Default"}
+        chk(set(at["derive"] or []) == want, "C17.enum_derive", "%s: %s vs %s" % (epath, sorted(at["derive"] or []), sorted(want)))
+        chk(docs_of(it[1]) == e["doc"], "C17.enum_doc", "%s: %s vs %s" % (epath, docs_of(it[1]), e["doc"]))
+    # no doc on helper items
+    for rel, f in res.hfiles.items():
+        if f is None or f[0] != "file":
+            continue
+        for it in f[2:]:
+            if isinstance(it, list) and it[0] == "fn" and str(it[4]).endswith("_size_check"):
+                chk(not docs_of(it[1]), "C17.stray_doc", "%s %s" % (rel, it[4]))
+            if isinstance(it, list) and it[0] == "impl" and it[2] != "notrait":
+                for m in it[4:]:
+                    if isinstance(m, list) and m[0] == "fn":
+                        chk(not docs_of(m[1]), "C17.stray_doc", "%s %s" % (rel, corr.item_key(it)))
+    return fails
+
+
+def mon_c14(res):
+    fails = []
+    exp = res.case.get("exp")
+    if res.hv[0] != "ok" or not exp or "modules" not in exp:
+        return fails
+    want_files = sorted(m + ".rs" for m in exp["modules"])
+    if sorted(res.hfiles) != want_files:
+        fails.append(dict(clause="C14.file_set", detail="written %s, modules %s" % (sorted(res.hfiles), want_files)))
+        return fails
+    declared = collections.defaultdict(lambda: dict(structs=[], enums=[], vfts=[], externs=[]))
+    for tpath, t in exp["types"].items():
+        parts = tpath.split("::")
+        declared["/".join(parts[:-1])]["structs"].append(parts[-1])
+        if t.get("declared_vft"):
+            declared["/".join(parts[:-1])]["vfts"].append(parts[-1] + "Vftable")
+    for epath in exp["enums"]:
+        parts = epath.split("::")
+        declared["/".join(parts[:-1])]["enums"].append(parts[-1])
+    for xpath in exp["externs"]:
+        parts = xpath.split("::")
+        declared["/".join(parts[:-1])]["externs"].append("get_" + parts[-1])
+    for rel, m in exp["modules"].items():
+        f = res.hfiles.get(rel + ".rs")
+        if f is None or f[0] != "file":
+            fails.append(dict(clause="C14.unparsable", detail=rel))
+            continue
+        items = [x for x in f[2:] if isinstance(x, list)]
+        structs = [str(x[3]) for x in items if x[0] == "struct"]
+        enums = [str(x[3]) for x in items if x[0] == "enum"]
+        getters = [str(x[4]) for x in items if x[0] == "fn" and str(x[4]).startswith("get_")]
+        d = declared[rel]
+        if sorted(structs) != sorted(d["structs"] + d["vfts"]):
+            fails.append(dict(clause="C14.structs", detail="%s: emitted %s, declared %s" % (rel, sorted(structs), sorted(d["structs"] + d["vfts"]))))
+        if sorted(enums) != sorted(d["enums"]):
+            fails.append(dict(clause="C14.enums", detail="%s: emitted %s, declared %s" % (rel, sorted(enums), sorted(d["enums"]))))
+        if sorted(getters) != sorted(d["externs"]):
+            fails.append(dict(clause="C14.extern_accessors", detail="%s: emitted %s, declared %s" % (rel, sorted(getters), sorted(d["externs"]))))
+        text = " ".join(sx.show(x) for x in items)
+        if "include" in text:
+            fails.append(dict(clause="C14.foreign_backend_text", detail=rel))
+        if m["pro"]:
+            first = items[0] if items else None
+            if not (first and first[0] == "const" and str(first[3]).startswith("PRO_")):
+                fails.append(dict(clause="C14.prologue_first", detail="%s: first item %s" % (rel, sx.show(first)[:80] if first else None)))
+            if sum(1 for x in items if x[0] == "const" and str(x[3]).startswith("PRO_")) != 1:
+                fails.append(dict(clause="C14.prologue_once", detail=rel))
+        if m["epi"]:
+            last = items[-1] if items else None
+            if not (last and last[0] == "fn" and str(last[4]).startswith("epi_")):
+                fails.append(dict(clause="C14.epilogue_last", detail="%s: last item %s" % (rel, sx.show(last)[:80] if last else None)))
+    return fails
+
+
 # ------------------------------------------------------------------------------------------------
 # property table
 
@@ -907,6 +1060,37 @@ PROPS["C15"] = dict(
                "resolved or the build fails; without an address it is rejected. RustExec defines the accessors' values (struct get: word at A, None when null; enum get: value at A; get_x: reference to A). "
                "Correspondence compares the emitted accessor items token for token (address by value); the monitor checks signature, address and cast type against the description.",
     level_note="Trusted: Coq kernel; model validated by this run's correspondence; RustExec.v definitions for what the accessor bodies compute.",
+)
+
+PROPS["C17"] = dict(
+    profile=dict(p_doc=0.6, p_pub=0.5, p_markers=0.6, p_packed=0.2, p_vftable=0.4, p_impl=0.5, p_base=0.3, enums=(0, 3), p_backend=0.0,
+                 extern_values=(0, 1)),
+    n=(400, 6000), corpus=["common", "C17"],
+    aspects=["verdict", "vis", "derive", "repr", "enum_repr", "doc", "items"],
+    monitors=[mon_c17],
+    nontrivial=lambda res: res.hv[0] == "ok" and res.case.get("exp") and len(res.case["exp"]["types"]) + len(res.case["exp"]["enums"]) >= 1,
+    rule="gen.py with doc comments (0..3 lines, 15% of them empty) on 60% of modules/types/enums/fields/functions, every pub/private combination, marker attributes on "
+         "60% of items (only satisfiable ones), 20% packed; non-trivial = accepted with >= 1 type or enum",
+    level_text="Proved in Coq (Properties/C17.v): the marker scan and the printed derive list (copyable -> Copy+Clone, cloneable -> Clone, defaultable -> Default), packed -> repr(C, packed) "
+               "without align, doc values joined and printed line for line incl. empty lines (doc_lines roundtrip), generated regions / vftable pointer / placeholders private and undocumented. "
+               "Correspondence compares visibility, derives, repr and doc attributes of every emitted node; the monitor recomputes all of them from the description and checks that helper items carry no doc.",
+    level_note="Trusted: Coq kernel; model validated by this run's correspondence; doc lines containing a line break are outside the doc theorem's hypothesis (they split, as rustdoc would).",
+)
+PROPS["C14"] = dict(
+    profile=dict(modules=(1, 4), p_nested_mod=0.5, p_backend=0.6, extern_values=(0, 3), externs=(0, 2), types=(0, 4), enums=(0, 2), p_vftable=0.4),
+    n=(400, 6000), corpus=["common", "C14"],
+    aspects=["verdict", "fileset", "items", "opaque", "extern", "header"],
+    monitors=[mon_c14],
+    nontrivial=lambda res: res.hv[0] == "ok" and res.case.get("exp") and len(res.case["exp"].get("modules", {})) >= 1,
+    rule="gen.py with 1..4 modules in nested directories (depth <= 3), modules without items, backend blocks for rust and another name in all three syntactic forms, "
+         "extern types and values; collisions (duplicate type names, a type named like a generated vftable struct) come from the corpus and the findings witnesses; "
+         "non-trivial = accepted; the implementation side runs the real pyxis::build into a fresh directory which is then listed recursively",
+    level_text="Proved in Coq (Properties/C14.v): one file per non-root module at module path + .rs; a file = header, rust prologues in source order, the module's registry items "
+               "each once sorted by path, extern accessors sorted by name, rust epilogues; other backends excluded; extern/predefined items emit nothing; a second definition of a path is rejected. "
+               "Correspondence compares the set of written files (real directory listing) and the ordered item list of each file; the monitor recounts structs/enums/vftable structs/accessors against the declarations "
+               "and checks prologue-first / epilogue-last / foreign text absent from the generated texts.",
+    level_note="Trusted: Coq kernel; model validated by this run's correspondence. Not modelled: glob, directory creation, file writes (exercised through the real build). A user type named like a generated "
+               "<T>Vftable struct is known finding F4b.",
 )
 
 NOT_YET = {}
